@@ -572,13 +572,21 @@ func (k *Key) MarshalCBOR() ([]byte, error) {
 	}
 	if k.Type == KeyTypeEC2 {
 		// If EC2 key, ensure that x and y are padded to the correct size.
-		crv, x, y, _ := k.EC2()
+		// The parameters are read from tmp, whose labels are normalized:
+		// k.Params may spell a label with any Go integer type.
+		var crv Curve
+		if v, ok, err := decodeInt(tmp, KeyLabelEC2Curve); ok && err == nil {
+			crv = Curve(v)
+		}
 		if size := curveSize(crv); size > 0 {
-			if 0 < len(x) && len(x) < size {
-				tmp[KeyLabelEC2X] = append(make([]byte, size-len(x), size), x...)
-			}
-			if 0 < len(y) && len(y) < size {
-				tmp[KeyLabelEC2Y] = append(make([]byte, size-len(y), size), y...)
+			for _, lbl := range [...]int64{KeyLabelEC2X, KeyLabelEC2Y} {
+				b, ok, err := decodeBytes(tmp, lbl)
+				if !ok || err != nil {
+					continue
+				}
+				if 0 < len(b) && len(b) < size {
+					tmp[lbl] = append(make([]byte, size-len(b), size), b...)
+				}
 			}
 		}
 	}
